@@ -50,9 +50,7 @@ func checkC14(c *Ctx, k C14Case) *Verdict {
 		v.Discard = "empty-case"
 		return v
 	}
-	if k.Plant == "missing-ctor" && !w.HasFeature("bind-foreign-ctor") {
-		k.Plant = ""
-	}
+	plantMissingCtorFile := k.Plant == "missing-ctor" && !w.HasFeature("bind-foreign-ctor")
 	p, d, det := newWirePair(c, w)
 	defer p.Close()
 	if d != "" {
@@ -92,6 +90,15 @@ func checkC14(c *Ctx, k C14Case) *Verdict {
 			appendFile(filepath.Join(p.B.AppDir, "wire.go"), "\nvar DupSet = wire.NewSet()\n")
 		}
 		_ = os.WriteFile(filepath.Join(p.B.AppDir, "wire_dup.go"), []byte("//go:build wireinject\n\npackage "+mat.UserPkg+"\n\nimport \"github.com/google/wire\"\n\nvar "+name+" = wire.NewSet()\n"), 0o644)
+	case "missing-ctor":
+		if plantMissingCtorFile {
+			// a second wire file whose Bind has no New<Type> constructor, next to files that migrate fine
+			name := "wire_zz_bad.go"
+			if k.Prior {
+				name = "wire_aa_bad.go" // sorts before wire.go
+			}
+			_ = os.WriteFile(filepath.Join(p.B.AppDir, name), []byte("//go:build wireinject\n\npackage "+mat.UserPkg+"\n\nimport \"github.com/google/wire\"\n\ntype BadIface interface{ BadM() }\n\ntype BadImpl struct{}\n\nfunc (*BadImpl) BadM() {}\n\nfunc ProvideBadImpl() *BadImpl { return &BadImpl{} }\n\nvar BadSet = wire.NewSet(ProvideBadImpl, wire.Bind(new(BadIface), new(*BadImpl)))\n"), 0o644)
+		}
 	case "mixed-packages":
 		other := filepath.Join(p.B.Root, "other")
 		_ = os.MkdirAll(other, 0o755)
